@@ -172,7 +172,14 @@ U_C08_Desc(zz) == {CtlDecl(<<AutoLenOf(U1("n"), "r"), U1("t"), RepCountF("r", U1
                                                                              [key |-> 1, alt |-> IntF("", 2, FALSE, "default")]>>, "chooses", IntV(0)),
                              U1("z")>>, 4),
                      CtlDecl(<<AutoLenOf(U1("n"), "d"), DataF("d", Defer(EBin("add", EF("n"), EC(0)))), U1("z")>>, 4)}
-U_C08(zz) == U_C08_Count(0) \cup U_C08_Until(0) \cup U_C08_Opt(0) \cup U_C08_Nest(0) \cup U_C08_Shared(0) \cup U_C08_Desc(0)
+\* embedding references: the fields of the referenced class parsed / serialised as fields of the embedding class
+SubLen == Class(DefaultOpts, <<AutoLenOf(U1("n"), "d"), DataF("d", SzField("n"))>>)
+U_C08_Emb(zz) == {DeclP([C0 |-> Class(DefaultOpts, <<U1("h")>> \o Embedded("p", "C1", <<>>, Sub1.fields) \o <<U1("z")>>), C1 |-> Sub1], {0, 1, 2}, 5, {0, 1}),
+                  DeclP([C0 |-> Class(DefaultOpts, Embedded("l", "C1", <<>>, SubLen.fields) \o <<U1("z")>>), C1 |-> SubLen], {0, 1, 2, 65}, 5, {0, 1}),
+                  DeclP([C0 |-> Class(DefaultOpts, <<U1("h"), RefF("s", "C1"), U1("t")>>),
+                         C1 |-> Class(DefaultOpts, Embedded("p", "C2", <<>>, Sub1.fields) \o <<OptF("o", U1("e"), Lam(EF("x")))>>),
+                         C2 |-> Sub1], {0, 1, 2}, 5, {0})}
+U_C08(zz) == U_C08_Count(0) \cup U_C08_Until(0) \cup U_C08_Opt(0) \cup U_C08_Nest(0) \cup U_C08_Shared(0) \cup U_C08_Desc(0) \cup U_C08_Emb(0)
 
 \* -------------------------------------------------------------------- C10
 Refs == {"innermost-pkt", "begins", "current-offset"}
@@ -379,6 +386,7 @@ PickU(n) ==
       [] n = "U_C08_Nest" -> U_C08_Nest(0)
       [] n = "U_C08_Shared" -> U_C08_Shared(0)
       [] n = "U_C08_Desc" -> U_C08_Desc(0)
+      [] n = "U_C08_Emb" -> U_C08_Emb(0)
       [] n = "U_C10_Desc" -> U_C10_Desc(0)
       [] n = "U_C04_Lone" -> U_C04_Lone(0)
       [] n = "U_C01_Root" -> U_C01_Root(0)
